@@ -198,44 +198,8 @@ def run(ctx):
 
     # ---------------------------------------------------------------- R3 per-run re-initialisation
     run = pool.methods['run']
-    mutated = {}
-    MUT = ('append', 'extend', 'insert', 'pop', 'clear', 'add', 'remove', 'update', 'discard')
-    for f in run.nested.values():
-        for n in walk_local(f.node):
-            if isinstance(n, (ast.Assign, ast.AugAssign)):
-                targets = n.targets if isinstance(n, ast.Assign) else [n.target]
-                for t in targets:
-                    base = t
-                    while isinstance(base, ast.Subscript):
-                        base = base.value
-                    if is_self_attr(base):
-                        mutated.setdefault(base.attr, f)
-            if isinstance(n, ast.Call) and last_attr(n) in MUT:
-                base = n.func.value
-                while isinstance(base, ast.Subscript):
-                    base = base.value
-                if is_self_attr(base):
-                    mutated.setdefault(base.attr, f)
+    check_reinit(ctx, pool, 'R3')
     tries = [st for st in run.node.body if isinstance(st, ast.Try)]
-    ctx.require(tries, 'Pool.run: try block not found')
-    prologue = []
-    for st in tries[0].body:
-        if isinstance(st, ast.FunctionDef):
-            break
-        prologue.append(st)
-    reinit = {t.attr for st in prologue if isinstance(st, ast.Assign) for t in st.targets if is_self_attr(t)}
-    exceptions = {'_closed'}
-    for attr, f in sorted(mutated.items()):
-        if attr in exceptions:
-            ctx.ob('R3', f'Pool.run: `{attr}` is persistent by design (dead workers are never handed work again)', True)
-            continue
-        ctx.check('R3', f'Pool.run re-initialises `{attr}` (mutated by {f.short}) in its prologue', attr in reinit, 'Pool.run', f'not-reinitialised:{attr}',
-                  f'`self.{attr}` is mutated during a run but not re-initialised at the start of the next one: bookkeeping of an earlier (e.g. failed) run leaks into the next run',
-                  where=loc(run, run.node))
-    ctx.floor('bookkeeping attributes mutated by run closures', len(mutated), 5)
-    # _closed must NOT be reset (dead workers are never handed work again)
-    ctx.check('R3', 'Pool.run keeps `_closed` across runs', '_closed' not in reinit, 'Pool.run', 'closed-set-reset',
-              'Pool.run forgets which workers are dead: the next run hands work to dead workers', where=loc(run, run.node))
     # restart re-enables workers: restart_workers must drop the old id from _closed? (ids change for process/remote; thread ids change too)
     from .c07 import check_enqueue_callers, closure_roles
     check_enqueue_callers(ctx, pool, run, closure_roles(ctx, run), rule='R3')
@@ -287,3 +251,54 @@ def _ancestors(pm, node):
     while cur in pm:
         cur = pm[cur]
         yield cur
+
+def check_reinit(ctx, pool, rule):
+    """every bookkeeping attribute a closure of Pool.run mutates is re-initialised in the prologue of run (helpers called there included),
+    except the closed set: nothing of an earlier - e.g. failed - run leaks into the next one"""
+    run = pool.methods['run']
+    mutated = {}
+    MUT = ('append', 'extend', 'insert', 'pop', 'clear', 'add', 'remove', 'update', 'discard')
+    for f in run.nested.values():
+        for n in walk_local(f.node):
+            if isinstance(n, (ast.Assign, ast.AugAssign)):
+                targets = n.targets if isinstance(n, ast.Assign) else [n.target]
+                for t in targets:
+                    base = t
+                    while isinstance(base, ast.Subscript):
+                        base = base.value
+                    if is_self_attr(base):
+                        mutated.setdefault(base.attr, f)
+            if isinstance(n, ast.Call) and last_attr(n) in MUT:
+                base = n.func.value
+                while isinstance(base, ast.Subscript):
+                    base = base.value
+                if is_self_attr(base):
+                    mutated.setdefault(base.attr, f)
+    tries = [st for st in run.node.body if isinstance(st, ast.Try)]
+    ctx.require(tries, 'Pool.run: try block not found')
+    prologue = []
+    for st in tries[0].body:
+        if isinstance(st, ast.FunctionDef):
+            break
+        prologue.append(st)
+    reinit = {t.attr for st in prologue if isinstance(st, ast.Assign) for t in st.targets if is_self_attr(t)}
+    # ... including what a helper method called unconditionally from the prologue assigns at its own top level
+    for st in prologue:
+        if isinstance(st, ast.Expr) and isinstance(st.value, ast.Call) and receiver(st.value) == 'self':
+            r = ctx.prog.resolve_call(st.value, run, pool)
+            if r and r[0] == 'func':
+                ctx.used(r[1])
+                reinit |= {t.attr for x in r[1].node.body if isinstance(x, ast.Assign) for t in x.targets if is_self_attr(t)}
+    exceptions = {'_closed'}
+    for attr, f in sorted(mutated.items()):
+        if attr in exceptions:
+            ctx.ob(rule, f'Pool.run: `{attr}` is persistent by design (dead workers are never handed work again)', True)
+            continue
+        ctx.check(rule, f'Pool.run re-initialises `{attr}` (mutated by {f.short}) in its prologue', attr in reinit, 'Pool.run', f'not-reinitialised:{attr}',
+                  f'`self.{attr}` is mutated during a run but not re-initialised at the start of the next one: bookkeeping of an earlier (e.g. failed) run leaks into the next run',
+                  where=loc(run, run.node))
+    ctx.floor('bookkeeping attributes mutated by run closures', len(mutated), 5)
+    # _closed must NOT be reset (dead workers are never handed work again)
+    ctx.check(rule, 'Pool.run keeps `_closed` across runs', '_closed' not in reinit, 'Pool.run', 'closed-set-reset',
+              'Pool.run forgets which workers are dead: the next run hands work to dead workers', where=loc(run, run.node))
+
